@@ -1001,3 +1001,793 @@ Proof.
   intros H. split; [reflexivity|]. split; [intros i; apply repeat_nth_stable_s|].
   split; [intros i; apply repeat_nth_stable_w|]. exact H.
 Qed.
+
+(* ------------------------------------------------------------------ *)
+(** * Event ledger (holds unconditionally, for every state and schedule) *)
+
+Definition lv (m : life) : nat := match m with Live => 1 | Dead => 0 end.
+Definition is_clear (e : event) : bool := match e with EClear => true | _ => false end.
+Definition is_freemem (e : event) : bool := match e with EFreeMem => true | _ => false end.
+Definition is_freedata (e : event) : bool := match e with EFreeData => true | _ => false end.
+(** access to a freed bookkeeping block, second clear/free, counter underflow *)
+Definition is_bad (e : event) : bool :=
+  match e with EUaf | EDouble | EUnderflow => true | _ => false end.
+Definition nev (p : event -> bool) (evs : list event) : nat := length (filter p evs).
+Definition log_count (p : event -> bool) (l : list info) : nat := nsum (map (fun i => nev p (i_evs i)) l).
+
+Lemma log_count_snoc p l i : log_count p (l ++ [i]) = log_count p l + nev p (i_evs i).
+Proof. unfold log_count. rewrite map_app, nsum_app. unfold nsum; simpl. lia. Qed.
+
+Definition ledger (gl : global) (evs : list event) (gl' : global) : Prop :=
+  nev is_clear evs + lv (mem gl') = lv (mem gl) /\
+  nev is_freemem evs + lv (mem gl') = lv (mem gl) /\
+  nev is_freedata evs + lv (data gl') = lv (data gl) /\
+  (err gl' = false -> err gl = false /\ nev is_bad evs = 0).
+
+Ltac case_ifs :=
+  repeat match goal with
+  | |- context [if ?b then _ else _] => destruct b
+  end.
+
+Lemma exec_ledger gl t o : ledger gl (r_evs (exec gl t o)) (r_g (exec gl t o)).
+Proof.
+  unfold ledger, exec, touch, dec.
+  destruct (tpc t); destruct (data gl) eqn:Ed; destruct (mem gl) eqn:Em; destruct (err gl) eqn:Ee;
+    cbn -[N.eqb N.ltb N.sub N.add]; case_ifs; cbn -[N.eqb N.ltb N.sub N.add];
+    rewrite ?Ed, ?Em, ?Ee; cbn; repeat split; auto; try discriminate; intros; try discriminate.
+Qed.
+
+Lemma ledger_refl gl : ledger gl [] gl.
+Proof. unfold ledger; cbn. repeat split; auto. Qed.
+
+Lemma step_thread_ledger gl t ts :
+  step_thread gl t = Some ts -> ledger gl (ts_evs ts) (ts_g ts).
+Proof.
+  unfold step_thread. destruct (prog t) as [|o rest]; [discriminate|].
+  assert (EX : forall t0 ts0, (let r := exec gl t0 o in
+                 let '(t2, dn) := finish (r_t r) o in
+                 Some (mkTS (r_g r) t2 (r_lab r) (r_ret r) (r_evs r) dn)) = Some ts0 ->
+               ledger gl (ts_evs ts0) (ts_g ts0)).
+  { intros t0 ts0. cbv zeta. destruct (finish (r_t (exec gl t0 o)) o). intros [= <-]. cbn [ts_evs ts_g].
+    apply exec_ledger. }
+  destruct (tpc t); try apply EX.
+  destruct o; try (destruct (tpc (begin t _)); try apply EX;
+                   destruct (finish _ _); intros [= <-]; apply ledger_refl).
+  destruct (s_null (get_sh t i)).
+  - intros [= <-]. apply ledger_refl.
+  - unfold touch. destruct (data gl) eqn:Ed; intros [= <-]; cbn [ts_evs ts_g].
+    + apply ledger_refl.
+    + unfold ledger; cbn. rewrite Ed. repeat split; auto; discriminate.
+Qed.
+
+Lemma step_ledger st tid st' :
+  step st tid = Some st' ->
+  exists i, log st' = log st ++ [i] /\ i_tid i = tid /\ ledger (g st) (i_evs i) (g st').
+Proof.
+  unfold step. destruct (nth_error (ths st) tid) as [t|]; [|discriminate].
+  destruct (step_thread (g st) t) as [ts|] eqn:E; [|discriminate]. intros [= <-].
+  eexists; split; [reflexivity|]. split; [reflexivity|]. cbn [i_evs g]. apply step_thread_ledger with t; auto.
+Qed.
+
+(** over a whole schedule: events logged + what is still alive = what was alive *)
+Lemma run_ledger sched : forall st,
+  let st' := run st sched in
+  log_count is_clear (log st') + lv (mem (g st')) = log_count is_clear (log st) + lv (mem (g st)) /\
+  log_count is_freemem (log st') + lv (mem (g st')) = log_count is_freemem (log st) + lv (mem (g st)) /\
+  log_count is_freedata (log st') + lv (data (g st')) = log_count is_freedata (log st) + lv (data (g st)) /\
+  (err (g st') = false -> err (g st) = false /\ log_count is_bad (log st') = log_count is_bad (log st)).
+Proof.
+  induction sched as [|tid r IH]; intros st; cbn [run]; [repeat split; auto|].
+  destruct (step st tid) as [s1|] eqn:E; [|apply IH].
+  destruct (step_ledger _ _ _ E) as (i & El & _ & (L1 & L2 & L3 & L4)).
+  specialize (IH s1). cbv zeta in *. destruct IH as (I1 & I2 & I3 & I4).
+  rewrite El, !log_count_snoc in *. repeat split; try lia.
+  - apply I4 in H. destruct H as (H & _). apply L4 in H. tauto.
+  - pose proof H as H'. apply I4 in H'. destruct H' as (H1 & H2). apply L4 in H1. lia.
+Qed.
+
+(** a thread that has let go of everything *)
+Definition released (t : thread) : Prop :=
+  prog t = [] /\ (forall i, get_sh t i = SNull) /\ (forall i, get_wk t i = WNull).
+
+Lemma released_zero t : thread_ok t -> released t ->
+  own t = 0 /\ softc t = 0 /\ clr t = 0 /\ fre t = 0.
+Proof.
+  intros (_ & Ok) (Ep & Hs & Hw). rewrite Ep in Ok. destruct Ok as (Hp & _).
+  unfold clr, fre. rewrite Hp. repeat split; auto.
+  - apply nsum_map_zero. intros x Hx. destruct (In_nth _ _ SNull Hx) as (i & _ & <-).
+    specialize (Hs i). unfold get_sh in Hs. rewrite Hs. auto.
+  - rewrite softc_split. unfold ssoft, wsoft. rewrite !nsum_map_zero; auto.
+    + intros x Hx. destruct (In_nth _ _ WNull Hx) as (i & _ & <-).
+      specialize (Hw i). unfold get_wk in Hw. rewrite Hw. auto.
+    + intros x Hx. destruct (In_nth _ _ SNull Hx) as (i & _ & <-).
+      specialize (Hs i). unfold get_sh in Hs. rewrite Hs. auto.
+Qed.
+
+Lemma all_released_dead st :
+  conc_inv st -> Forall released (ths st) -> mem (g st) = Dead /\ data (g st) = Dead.
+Proof.
+  intros (Ft & HG) Hr.
+  assert (Z : tot own (ths st) = 0 /\ tot softc (ths st) = 0 /\ tot clr (ths st) = 0 /\ tot fre (ths st) = 0).
+  { repeat split; apply tot_zero; rewrite Forall_forall in *; intros t Ht;
+      destruct (released_zero t (Ft t Ht) (Hr t Ht)) as (A & B & C & D); auto. }
+  destruct Z as (Z1 & Z2 & Z3 & Z4). rewrite Z1, Z2, Z3, Z4 in HG.
+  destruct HG as (_ & _ & _ & _ & M1 & _ & _ & _ & _ & D1 & _).
+  split; [destruct (mem (g st)); auto; specialize (M1 eq_refl); lia
+         |destruct (data (g st)); auto; specialize (D1 eq_refl); lia].
+Qed.
+
+(* ------------------------------------------------------------------ *)
+(** * Which step a thread takes next *)
+
+Definition lab_of_pc (p : pc) : label :=
+  match p with
+  | PIdle => LNop | PResetHard => LSubHard | PClear => LClear | PResetSoft => LSubSoft
+  | PFree => LFreeData | PShareHard => LAddHard | PShareSoft => LAddSoft | PWeakSoft => LAddSoft
+  | PLockSpin => LTas | PLockHard => LAddHard | PLockSoft => LAddSoft | PLockUndo => LSubHard
+  | PLockClear => LFlagClear
+  end.
+
+Lemma exec_lab gl t o : r_lab (exec gl t o) = lab_of_pc (tpc t).
+Proof.
+  unfold exec, touch, dec. destruct (tpc t); destruct (data gl); destruct (mem gl);
+    cbn -[N.eqb N.ltb N.sub N.add]; case_ifs; reflexivity.
+Qed.
+
+(** the thread at the moment it performs its step: a call that has not
+    started performs its thread-private prelude first *)
+Definition started (t : thread) (o : op) : thread :=
+  match tpc t with PIdle => begin t o | _ => t end.
+
+(** inversion of [step_thread] *)
+Lemma step_thread_cases gl t ts :
+  step_thread gl t = Some ts ->
+  exists o rest, prog t = o :: rest /\
+  ((exists i, tpc t = PIdle /\ o = Get i /\ ts_lab ts = LGet (negb (s_null (get_sh t i))) /\
+              ts_t ts = mkT (sh t) (wk t) rest PIdle /\
+              ts_g ts = (if s_null (get_sh t i) then gl else fst (touch gl))) \/
+   ((forall i, tpc t = PIdle -> o <> Get i) /\
+    let t1 := started t o in
+    (tpc t1 = PIdle /\ ts_lab ts = LNop /\ ts_g ts = gl /\ ts_evs ts = [] /\ ts_t ts = fst (finish t1 o)) \/
+    (tpc t1 <> PIdle /\ ts_lab ts = lab_of_pc (tpc t1) /\
+     ts_g ts = r_g (exec gl t1 o) /\ ts_evs ts = r_evs (exec gl t1 o) /\ ts_ret ts = r_ret (exec gl t1 o) /\
+     ts_t ts = fst (finish (r_t (exec gl t1 o)) o)))).
+Proof.
+  unfold step_thread. destruct (prog t) as [|o rest]; [discriminate|]. intros H. exists o, rest. split; auto.
+  assert (EX : forall t0, tpc t0 <> PIdle ->
+               (let r := exec gl t0 o in
+                 let '(t2, dn) := finish (r_t r) o in
+                 Some (mkTS (r_g r) t2 (r_lab r) (r_ret r) (r_evs r) dn)) = Some ts ->
+               tpc t0 <> PIdle /\ ts_lab ts = lab_of_pc (tpc t0) /\
+     ts_g ts = r_g (exec gl t0 o) /\ ts_evs ts = r_evs (exec gl t0 o) /\ ts_ret ts = r_ret (exec gl t0 o) /\
+     ts_t ts = fst (finish (r_t (exec gl t0 o)) o)).
+  { intros t0 N0. cbv zeta. destruct (finish (r_t (exec gl t0 o)) o). intros [= <-]. cbn [ts_lab ts_g ts_evs ts_ret ts_t fst].
+    rewrite exec_lab. repeat split; auto. }
+  unfold started.
+  remember (tpc t) as p eqn:Hpc. destruct p;
+    try (right; split; [intros; discriminate|]; right; apply EX; [congruence|exact H]).
+  destruct o as [s d|d|s d|w d|d|i].
+  6: { left. exists i. split; auto. split; auto. destruct (s_null (get_sh t i)).
+       - injection H as <-. auto.
+       - destruct (touch gl) as (g1 & ev). injection H as <-. auto. }
+  all: right; (split; [intros; discriminate|]); cbv zeta iota beta;
+    match type of H with context [begin _ ?o] => remember (tpc (begin t o)) as q eqn:Hb in H; destruct q end;
+    try (right; apply EX; [congruence|exact H]);
+    left; destruct (finish _ _) eqn:Ef; injection H as <-; cbn [fst ts_lab ts_g ts_evs ts_t]; auto.
+Qed.
+
+Lemma pc_ok_softc t o : pc_ok t o -> tpc t <> PIdle -> tpc t <> PFree -> ssoft t + wsoft t >= 1.
+Proof.
+  intros Ok N1 N2. unfold pc_ok in Ok. destruct (tpc t); try congruence; destruct o; try contradiction;
+    repeat match goal with H : _ /\ _ |- _ => destruct H end;
+    repeat match goal with
+    | H : sh_at _ ?d ?x |- _ => let L := fresh in let E := fresh in destruct H as (L & E & _);
+         pose proof (ssoft_ge t d); pose proof (own_ge t d); rewrite E in *
+    | H : wk_at _ ?d ?x |- _ => let L := fresh in let E := fresh in destruct H as (L & E & _);
+         pose proof (wsoft_ge t d); rewrite E in *
+    | H : get_sh _ ?s = SFull |- _ => pose proof (ssoft_ge t s); rewrite H in *; clear H
+    | H : get_wk _ ?s = WFull |- _ => pose proof (wsoft_ge t s); rewrite H in *; clear H
+    end; simpl in *; lia.
+Qed.
+
+(** the started thread: same counters, locally consistent *)
+Lemma started_ok t o rest :
+  thread_ok t -> prog t = o :: rest -> (forall i, tpc t = PIdle -> o <> Get i) ->
+  let t1 := started t o in
+  same_shape t t1 /\ pc_ok t1 o /\
+  own t1 = own t /\ probes t1 = probes t /\ ssoft t1 = ssoft t /\ wsoft t1 = wsoft t /\
+  win t1 = win t /\ clr t1 = clr t /\ fre t1 = fre t.
+Proof.
+  intros (Wf & Ok) Ep NG. rewrite Ep in *. unfold started.
+  destruct (tpc t) eqn:Hpc; try (split; [apply same_shape_refl|]; repeat split; auto).
+  pose proof Ok as Ok'. unfold pc_ok in Ok'. rewrite Hpc in Ok'. destruct Ok' as (Ss & Sw).
+  assert (Wo : op_wf t o) by (inversion Wf; auto).
+  destruct (begin_ok t o Wo Ss Sw Hpc (fun i => NG i eq_refl)) as (A & B & C & D & E & F & G & H & I).
+  unfold win, clr, fre in *. rewrite Hpc. split; [exact A|]. repeat split; auto.
+Qed.
+
+(** what the label of the next step says about the thread *)
+Lemma step_thread_access gl t ts :
+  thread_ok t -> step_thread gl t = Some ts ->
+  (access (ts_lab ts) = 4 -> fre t = 1) /\
+  (access (ts_lab ts) = 3 -> clr t = 1) /\
+  (access (ts_lab ts) = 2 -> own t >= 1) /\
+  (access (ts_lab ts) >= 1 -> softc t + fre t >= 1).
+Proof.
+  intros Tk Hs. destruct (step_thread_cases _ _ _ Hs) as (o & rest & Ep & [(i & Hpc & -> & El & _)|(NG & Hc)]).
+  - rewrite El. destruct (s_null (get_sh t i)) eqn:En; cbn; repeat split; intros; try lia.
+    + destruct Tk as (_ & Ok). rewrite Ep in Ok. unfold pc_ok in Ok. rewrite Hpc in Ok.
+      destruct Ok as (Ss & _). pose proof (stable_s_nonnull _ (Ss i) En) as E.
+      destruct (full_counts _ _ E). lia.
+    + destruct Tk as (_ & Ok). rewrite Ep in Ok. unfold pc_ok in Ok. rewrite Hpc in Ok.
+      destruct Ok as (Ss & _). pose proof (stable_s_nonnull _ (Ss i) En) as E.
+      destruct (full_counts _ _ E). rewrite softc_split. lia.
+  - destruct (started_ok t o rest Tk Ep NG) as (Sh & Pk & Eo & _ & Es & Ews & _ & Ec & Ef).
+    cbv zeta in Hc. set (t1 := started t o) in *.
+    destruct Hc as [(_ & -> & _)|(Np & -> & _)]; [cbn; repeat split; intros; lia|].
+    rewrite softc_split, <- Es, <- Ews, <- Ec, <- Ef, <- Eo.
+    pose proof (pc_ok_softc t1 o Pk Np) as SC. unfold clr, fre.
+    destruct (tpc t1); cbn; repeat split; intros; try lia; try congruence;
+      try (specialize (SC ltac:(discriminate)); lia).
+Qed.
+
+(* ------------------------------------------------------------------ *)
+(** * Consequences: destruction of the managed memory *)
+
+Lemma exec_clear_lab gl t o :
+  nev is_clear (r_evs (exec gl t o)) > 0 -> r_lab (exec gl t o) = LClear.
+Proof.
+  unfold exec, touch, dec. destruct (tpc t); destruct (data gl); destruct (mem gl);
+    cbn -[N.eqb N.ltb N.sub N.add]; case_ifs; cbn; intros; auto; lia.
+Qed.
+
+Lemma step_thread_clear_lab gl t ts :
+  step_thread gl t = Some ts -> nev is_clear (ts_evs ts) > 0 -> ts_lab ts = LClear.
+Proof.
+  unfold step_thread. destruct (prog t) as [|o rest]; [discriminate|].
+  assert (EX : forall t0 ts0, (let r := exec gl t0 o in
+                 let '(t2, dn) := finish (r_t r) o in
+                 Some (mkTS (r_g r) t2 (r_lab r) (r_ret r) (r_evs r) dn)) = Some ts0 ->
+               nev is_clear (ts_evs ts0) > 0 -> ts_lab ts0 = LClear).
+  { intros t0 ts0. cbv zeta. destruct (finish (r_t (exec gl t0 o)) o). intros [= <-]. cbn [ts_evs ts_lab].
+    apply exec_clear_lab. }
+  destruct (tpc t); try apply EX.
+  destruct o; try (destruct (tpc (begin t _)); try apply EX;
+                   destruct (finish _ _); intros [= <-]; cbn; lia).
+  destruct (s_null (get_sh t i)).
+  - intros [= <-]. cbn; lia.
+  - unfold touch. destruct (data gl); intros [= <-]; cbn; lia.
+Qed.
+
+Lemma step_inv st tid st' :
+  step st tid = Some st' ->
+  exists t ts, nth_error (ths st) tid = Some t /\ step_thread (g st) t = Some ts /\
+    g st' = ts_g ts /\ ths st' = upd (ths st) tid (ts_t ts) /\
+    log st' = log st ++ [mkI tid (ts_lab ts) (ts_ret ts) (ts_evs ts) (ts_done ts)].
+Proof.
+  unfold step. destruct (nth_error (ths st) tid) as [t|]; [|discriminate].
+  destruct (step_thread (g st) t) as [ts|] eqn:E; [|discriminate]. intros [= <-].
+  exists t, ts. auto.
+Qed.
+
+Lemma conc_inv_thread st tid t : conc_inv st -> nth_error (ths st) tid = Some t -> thread_ok t.
+Proof. intros (Ft & _) H. rewrite Forall_forall in Ft. apply Ft. eapply nth_error_In; eauto. Qed.
+
+(** the step that clears and frees the managed memory is taken in a state
+    with NO counted owner, and the memory is alive until then *)
+Theorem clear_only_without_owner st tid st' i :
+  conc_inv st -> step st tid = Some st' -> log st' = log st ++ [i] ->
+  nev is_clear (i_evs i) > 0 ->
+  tot own (ths st) = 0 /\ mem (g st) = Live /\ mem (g st') = Dead /\ i_lab i = LClear.
+Proof.
+  intros Inv Hs El Hc. destruct (step_inv _ _ _ Hs) as (t & ts & Et & Es & Eg & _ & El').
+  rewrite El' in El. apply app_inv_head in El. injection El as <-. cbn [i_evs i_lab] in *.
+  pose proof (step_thread_clear_lab _ _ _ Es Hc) as Lab.
+  pose proof (conc_inv_thread _ _ _ Inv Et) as Tk.
+  destruct (step_thread_access _ _ _ Tk Es) as (_ & A3 & _). rewrite Lab in A3. specialize (A3 eq_refl).
+  pose proof (tot_ge clr _ _ _ Et) as Gc.
+  destruct Inv as (_ & HG). destruct HG as (_ & _ & _ & _ & M1 & M2 & M3 & _).
+  assert (O0 : tot own (ths st) = 0) by (apply M3; lia).
+  assert (ML : mem (g st) = Live) by (destruct (mem (g st)); auto; specialize (M2 eq_refl); lia).
+  destruct (step_thread_ledger _ _ _ Es) as (L1 & _). rewrite ML in L1. cbn in L1.
+  repeat split; auto. rewrite Eg. destruct (mem (ts_g ts)); auto. cbn in L1. lia.
+Qed.
+
+(** at most once, whatever the schedule and the initial state *)
+Theorem clear_at_most_once ts sched :
+  let st := run (init_state ts) sched in
+  log_count is_clear (log st) <= 1 /\ log_count is_freemem (log st) <= 1 /\
+  log_count is_freedata (log st) <= 1.
+Proof.
+  destruct (run_ledger sched (init_state ts)) as (A & B & C & _). cbv zeta in *.
+  cbn [log init_state] in *. unfold log_count at 2 in A. unfold log_count at 2 in B. unfold log_count at 2 in C.
+  cbn in A, B, C.
+  destruct (nsum (map hardc ts)), (nsum (map softc ts)), (mem (g (run (init_state ts) sched))),
+    (data (g (run (init_state ts) sched))); cbn in *; lia.
+Qed.
+
+(** exactly once in every execution that ends with everything released *)
+Theorem destroyed_exactly_once ts sched :
+  Forall thread_init_ok ts ->
+  let st := run (init_state ts) sched in
+  Forall released (ths st) ->
+  (tot hardc ts > 0 -> log_count is_clear (log st) = 1 /\ log_count is_freemem (log st) = 1) /\
+  (tot softc ts > 0 -> log_count is_freedata (log st) = 1).
+Proof.
+  intros Hi st Hr.
+  assert (Inv : conc_inv st) by (apply conc_inv_run, conc_inv_init; auto).
+  destruct (all_released_dead _ Inv Hr) as (Md & Dd).
+  destruct (run_ledger sched (init_state ts)) as (A & B & C & _). fold st in A, B, C.
+  rewrite Md, Dd in *. cbn [log init_state g mem data lv] in *.
+  unfold log_count at 2 in A. unfold log_count at 2 in B. unfold log_count at 2 in C. cbn in A, B, C.
+  fold (tot hardc ts) in *. fold (tot softc ts) in *.
+  split; intros P; [destruct (tot hardc ts); [lia|]|destruct (tot softc ts); [lia|]]; cbn in *; lia.
+Qed.
+
+(** * Consequences: owners see live memory *)
+
+Theorem owner_live st tid t i :
+  conc_inv st -> nth_error (ths st) tid = Some t -> own_obj (get_sh t i) = 1 -> mem (g st) = Live.
+Proof.
+  intros (_ & HG) Et Ho. pose proof (tot_ge own _ _ _ Et) as G. pose proof (own_ge t i) as G'.
+  destruct HG as (_ & _ & _ & _ & _ & M2 & _).
+  destruct (mem (g st)); auto. specialize (M2 eq_refl). lia.
+Qed.
+
+(** the weak lock's increment reads exactly the number of counted owners:
+    no other thread's transient increment can be included *)
+Theorem lock_reads_owner_count st tid t :
+  conc_inv st -> nth_error (ths st) tid = Some t -> tpc t = PLockHard ->
+  hard (g st) = N.of_nat (tot own (ths st)) /\ lock (g st) = true.
+Proof.
+  intros Inv Et Hpc. pose proof (conc_inv_thread _ _ _ Inv Et) as Tk.
+  destruct Inv as (Ft & HG).
+  assert (HP : tot probes (ths st) <= tot win (ths st)).
+  { apply tot_le. eapply Forall_impl; [|exact Ft]. apply thread_ok_probes. }
+  pose proof (tot_ge win _ _ _ Et) as Gw. unfold win at 1 in Gw. rewrite Hpc in Gw.
+  destruct (nth_split_upd _ _ _ Et) as (l1 & l2 & El & _). rewrite El in *. rewrite !tot_mid in *.
+  assert (Fo : Forall thread_ok (l1 ++ l2)).
+  { apply Forall_app in Ft. destruct Ft as (A & B). inversion B; subst. apply Forall_app; auto. }
+  assert (HPo : tot probes (l1 ++ l2) <= tot win (l1 ++ l2)).
+  { apply tot_le. eapply Forall_impl; [|exact Fo]. apply thread_ok_probes. }
+  assert (Pt : probes t = 0).
+  { destruct Tk as (_ & Ok). destruct (prog t) as [|o r]; [destruct Ok; congruence|].
+    unfold pc_ok in Ok. rewrite Hpc in Ok. destruct o; try contradiction. destruct Ok as (At & _).
+    rewrite (probes_at _ _ _ At). auto. }
+  destruct HG as (Hh & _ & Hw & _). unfold win at 2 in Hw. rewrite Hpc in Hw.
+  destruct (lock (g st)); [|lia]. split; auto. rewrite Hh. f_equal. lia.
+Qed.
+
+(** ... and when it is non-zero the destination becomes a counted owner of
+    live memory in that very step *)
+Theorem lock_success_live st tid t w d rest st' :
+  conc_inv st -> nth_error (ths st) tid = Some t -> tpc t = PLockHard -> prog t = Lock w d :: rest ->
+  step st tid = Some st' ->
+  (tot own (ths st) > 0 ->
+     exists t', nth_error (ths st') tid = Some t' /\ get_sh t' d = SHard /\ tpc t' = PLockSoft /\
+                mem (g st') = Live) /\
+  (tot own (ths st) = 0 ->
+     exists t', nth_error (ths st') tid = Some t' /\ get_sh t' d = SProbe /\ tpc t' = PLockUndo).
+Proof.
+  intros Inv Et Hpc Ep Hs.
+  destruct (lock_reads_owner_count _ _ _ Inv Et Hpc) as (Hh & _).
+  pose proof (conc_inv_step _ _ _ Inv Hs) as Inv'.
+  pose proof (conc_inv_thread _ _ _ Inv Et) as Tk.
+  assert (Ld : d < length (sh t)).
+  { destruct Tk as (Wf & _). rewrite Ep in Wf. inversion Wf as [|? ? Hw _]. destruct Hw; auto. }
+  assert (Hd : data (g st) = Live).
+  { destruct Tk as (_ & Ok). rewrite Ep in Ok. unfold pc_ok in Ok. rewrite Hpc in Ok. destruct Ok as (_ & _ & Ew).
+    pose proof (wfull_counts _ _ Ew). pose proof (tot_ge softc _ _ _ Et) as G. rewrite softc_split in G.
+    destruct Inv as (_ & HG). eapply ginv_data_live; eauto. lia. }
+  destruct (step_inv _ _ _ Hs) as (t0 & ts & Et0 & Es & Eg & Eth & _). rewrite Et in Et0. injection Et0 as <-.
+  unfold step_thread in Es. rewrite Ep, Hpc in Es. unfold exec in Es. rewrite Hpc, (touch_live _ Hd) in Es.
+  cbn iota beta in Es. cbn [target_sh] in Es.
+  assert (Lt : tid < length (ths st)) by (apply nth_error_Some; congruence).
+  split; intros Ho.
+  - destruct (N.ltb_spec 0 (hard (g st))) as [Pos|Z]; [|lia].
+    unfold finish in Es. cbn [r_t r_g tpc set_pc] in Es. injection Es as <-.
+    eexists. split; [rewrite Eth; apply nth_error_upd_same; auto|]. cbn [ts_t].
+    split; [apply get_sh_set_same; auto|]. split; [reflexivity|].
+    eapply (owner_live st' tid _ d Inv').
+    + rewrite Eth. apply nth_error_upd_same; auto.
+    + cbn [ts_t]. change (own_obj (get_sh (set_sh t d SHard) d) = 1). rewrite get_sh_set_same; auto.
+  - destruct (N.ltb_spec 0 (hard (g st))) as [Pos|Z]; [lia|].
+    unfold finish in Es. cbn [r_t r_g tpc set_pc] in Es. injection Es as <-.
+    eexists. split; [rewrite Eth; apply nth_error_upd_same; auto|]. cbn [ts_t].
+    split; [apply get_sh_set_same; auto|]. reflexivity.
+Qed.
+
+(** an owner stays an owner until its own thread starts a call on it *)
+Lemma enter_frame t o i : i <> target_sh o -> get_sh (enter t o) i = get_sh t i.
+Proof.
+  intros H. destruct o; cbn [enter target_sh] in *; case_ifs; auto;
+    change (get_sh (set_sh t d SRaw) i = get_sh t i); apply get_sh_set_other; auto.
+Qed.
+
+Ltac frame_simpl :=
+  repeat match goal with
+  | |- context [get_sh (set_pc ?x ?p) ?i] => change (get_sh (set_pc x p) i) with (get_sh x i)
+  | |- context [get_sh (set_wk ?x ?d ?v) ?i] => change (get_sh (set_wk x d v) i) with (get_sh x i)
+  end.
+
+Lemma exec_frame gl t o i :
+  i <> target_sh o -> get_sh (r_t (exec gl t o)) i = get_sh t i.
+Proof.
+  intros H. unfold exec, touch, dec.
+  destruct (tpc t); destruct (data gl); destruct (mem gl); cbn [r_t fst snd];
+    case_ifs; cbn [r_t]; rewrite ?enter_frame by auto; frame_simpl;
+    rewrite ?get_sh_set_other by auto; auto.
+Qed.
+
+(** the shared object a call works on *)
+Definition touches_sh (o : op) (i : nat) : Prop :=
+  match o with Share _ d | Lock _ d | Reset d => i = d | _ => False end.
+
+Lemma enter_frame_weak t o i : target_is_weak o = true -> get_sh (enter t o) i = get_sh t i.
+Proof. destruct o; cbn [enter target_is_weak]; try discriminate; intros _; case_ifs; auto. Qed.
+
+Lemma exec_frame_weak gl t o i :
+  target_is_weak o = true -> pc_ok t o -> get_sh (r_t (exec gl t o)) i = get_sh t i.
+Proof.
+  intros Hw Ok. unfold pc_ok in Ok. unfold exec, touch, dec.
+  destruct (tpc t); destruct o; try discriminate; try contradiction;
+    destruct (data gl); destruct (mem gl); cbn [r_t fst snd target_is_weak];
+    case_ifs; cbn [r_t]; rewrite ?enter_frame_weak by auto; frame_simpl; auto.
+Qed.
+
+Lemma begin_frame t o i : ~ touches_sh o i -> get_sh (begin t o) i = get_sh t i.
+Proof.
+  intros H. destruct o; cbn [begin touches_sh] in *; case_ifs; auto;
+    first [ apply enter_frame_weak; reflexivity | apply enter_frame; cbn [target_sh]; auto ].
+Qed.
+
+Lemma finish_frame t o i : get_sh (fst (finish t o)) i = get_sh t i.
+Proof. unfold finish. destruct (tpc t); auto. Qed.
+
+Lemma step_thread_frame gl t ts o rest i :
+  thread_ok t -> step_thread gl t = Some ts -> prog t = o :: rest -> ~ touches_sh o i ->
+  get_sh (ts_t ts) i = get_sh t i.
+Proof.
+  intros Tk Hs Ep Nt.
+  destruct (step_thread_cases _ _ _ Hs) as (o' & rest' & Ep' & [(j & _ & _ & _ & Et & _)|(NG & Hc)]).
+  - rewrite Et. reflexivity.
+  - rewrite Ep in Ep'. injection Ep' as <- <-.
+    destruct (started_ok t o rest Tk Ep NG) as (_ & Pk & _).
+    cbv zeta in Hc.
+    assert (E1 : get_sh (started t o) i = get_sh t i).
+    { unfold started. destruct (tpc t); auto. apply begin_frame; auto. }
+    destruct Hc as [(_ & _ & _ & _ & Et)|(Np & _ & _ & _ & _ & Et)]; rewrite Et, finish_frame; auto.
+    rewrite <- E1. destruct (target_is_weak o) eqn:Ew.
+    + apply exec_frame_weak; auto.
+    + apply exec_frame. intros ->. apply Nt. destruct o; simpl in *; auto; try discriminate.
+      unfold pc_ok in Pk. destruct (tpc (started t _)); try contradiction; congruence.
+Qed.
+
+(** Whatever the other threads do, and whatever its own thread does on OTHER
+    objects, an object keeps its state.  In particular the owner produced by
+    a successful lock stays a counted owner - hence (owner_live) its memory
+    stays alive - until its own thread starts a call that targets it. *)
+Theorem object_kept st tid st' tid' t i :
+  conc_inv st -> step st tid = Some st' -> nth_error (ths st) tid' = Some t ->
+  (tid' <> tid \/ exists o rest, prog t = o :: rest /\ ~ touches_sh o i) ->
+  exists t', nth_error (ths st') tid' = Some t' /\ get_sh t' i = get_sh t i.
+Proof.
+  intros Inv Hs Et H. destruct (step_inv _ _ _ Hs) as (t0 & ts & Et0 & Es & _ & Eth & _).
+  destruct (Nat.eq_dec tid' tid) as [->|N].
+  - destruct H as [H|(o & rest & Ep & Nt)]; [congruence|].
+    rewrite Et in Et0. injection Et0 as <-.
+    exists (ts_t ts). split.
+    + rewrite Eth. apply nth_error_upd_same. apply nth_error_Some. congruence.
+    + eapply step_thread_frame; eauto. eapply conc_inv_thread; eauto.
+  - exists t. split; auto. rewrite Eth, nth_error_upd_other; auto.
+Qed.
+
+(* ------------------------------------------------------------------ *)
+(** * Consequences: the bookkeeping block *)
+
+(** once it is freed no thread has an enabled step that accesses it *)
+Theorem no_access_after_free st tid l :
+  conc_inv st -> data (g st) = Dead -> next_label st tid = Some l -> access l = 0.
+Proof.
+  intros Inv Hd Hl. unfold next_label in Hl.
+  destruct (nth_error (ths st) tid) as [t|] eqn:Et; [|discriminate].
+  destruct (step_thread (g st) t) as [ts|] eqn:Es; [|discriminate]. injection Hl as <-.
+  pose proof (conc_inv_thread _ _ _ Inv Et) as Tk.
+  destruct (step_thread_access _ _ _ Tk Es) as (_ & _ & _ & A).
+  destruct (access (ts_lab ts)) eqn:Ea; auto. exfalso.
+  specialize (A ltac:(lia)).
+  pose proof (tot_ge softc _ _ _ Et). pose proof (tot_ge fre _ _ _ Et).
+  destruct Inv as (_ & HG). destruct HG as (_ & _ & _ & _ & _ & _ & _ & _ & _ & _ & D & _).
+  specialize (D Hd). lia.
+Qed.
+
+(** the error flag (access to a freed block, second clear or free, counter
+    underflow) is never set and no such event is ever logged *)
+Theorem never_err ts sched :
+  Forall thread_init_ok ts ->
+  let st := run (init_state ts) sched in
+  err (g st) = false /\ log_count is_bad (log st) = 0.
+Proof.
+  intros Hi st. assert (Inv : conc_inv st) by (apply conc_inv_run, conc_inv_init; auto).
+  assert (E : err (g st) = false) by (destruct Inv as (_ & HG); destruct HG as (_&_&_&_&_&_&_&_&_&_&_&_&X); exact X).
+  split; auto. destruct (run_ledger sched (init_state ts)) as (_ & _ & _ & L). fold st in L.
+  destruct (L E) as (_ & ->). reflexivity.
+Qed.
+
+(* ------------------------------------------------------------------ *)
+(** * Data-race freedom at the SC level *)
+
+Theorem no_race_at st i j : conc_inv st -> race_at st i j = false.
+Proof.
+  intros Inv. unfold race_at, next_label.
+  destruct (nth_error (ths st) i) as [ti|] eqn:Ei; auto.
+  destruct (step_thread (g st) ti) as [tsi|] eqn:Si; auto. cbn [option_map].
+  destruct (nth_error (ths st) j) as [tj|] eqn:Ej; auto.
+  destruct (step_thread (g st) tj) as [tsj|] eqn:Sj; auto. cbn [option_map].
+  destruct (Nat.eqb_spec i j) as [->|N]; auto. cbn [negb andb].
+  destruct (step_thread_access _ _ _ (conc_inv_thread _ _ _ Inv Ei) Si) as (A4 & A3 & A2 & A1).
+  destruct (step_thread_access _ _ _ (conc_inv_thread _ _ _ Inv Ej) Sj) as (B4 & B3 & B2 & B1).
+  pose proof (tot_ge2 fre _ _ _ _ _ Ei Ej N) as Gf.
+  pose proof (tot_ge2 clr _ _ _ _ _ Ei Ej N) as Gc.
+  pose proof (tot_ge2 own _ _ _ _ _ Ei Ej N) as Go.
+  pose proof (tot_ge2 softc _ _ _ _ _ Ei Ej N) as Gs.
+  destruct Inv as (_ & HG). destruct HG as (_ & _ & _ & C1 & _ & _ & C3 & _ & F1 & _ & _ & F3 & _).
+  unfold conflict.
+  destruct (access (ts_lab tsi)) as [|[|[|[|[|a]]]]] eqn:Ea; destruct (access (ts_lab tsj)) as [|[|[|[|[|b]]]]] eqn:Eb;
+    auto; exfalso;
+    repeat match goal with H : ?n = ?n -> _ |- _ => specialize (H eq_refl) end;
+    repeat match goal with H : ?a >= 1 -> _ |- _ => specialize (H ltac:(lia)) end; try lia.
+  all: try (unfold access in *; destruct (ts_lab tsi) as [| [|] | | | | | | | |]; discriminate).
+  all: try (unfold access in *; destruct (ts_lab tsj) as [| [|] | | | | | | | |]; discriminate).
+Qed.
+
+Theorem race_free st : conc_inv st -> has_race st = false.
+Proof.
+  intros Inv. unfold has_race.
+  destruct (existsb _ _) eqn:E; auto. apply existsb_exists in E. destruct E as (i & _ & E).
+  apply existsb_exists in E. destruct E as (j & _ & E). rewrite no_race_at in E; auto.
+Qed.
+
+(* ------------------------------------------------------------------ *)
+(** * Progress *)
+
+(** remaining non-spin steps of the current call, at most *)
+Definition wpc (p : pc) : nat :=
+  match p with
+  | PIdle => 9 | PResetHard => 8 | PClear => 7 | PResetSoft => 6 | PFree => 5
+  | PShareHard | PWeakSoft | PLockSpin => 4 | PShareSoft | PLockHard => 3
+  | PLockSoft | PLockUndo => 2 | PLockClear => 1
+  end.
+Definition measure (t : thread) : nat :=
+  match prog t with [] => 0 | _ :: r => wpc (tpc t) + 9 * length r end.
+
+Lemma prog_enter t o : prog (enter t o) = prog t.
+Proof. destruct o; cbn [enter]; case_ifs; reflexivity. Qed.
+Lemma prog_begin t o : prog (begin t o) = prog t.
+Proof. destruct o; cbn [begin]; case_ifs; try apply prog_enter; reflexivity. Qed.
+Lemma wpc_enter t o : tpc (enter t o) = PIdle \/ wpc (tpc (enter t o)) = 4.
+Proof. destruct o; cbn [enter]; case_ifs; auto. Qed.
+Lemma wpc_le p : 1 <= wpc p <= 9.
+Proof. destruct p; cbn; lia. Qed.
+
+Lemma exec_measure gl t o :
+  tpc t <> PIdle ->
+  let r := exec gl t o in
+  prog (r_t r) = prog t /\
+  ((r_lab r = LTas /\ r_ret r = 1%N /\ r_t r = t /\ r_g r = fst (touch gl)) \/
+   ((r_lab r <> LTas \/ r_ret r = 0%N) /\
+    (tpc (r_t r) = PIdle \/ wpc (tpc (r_t r)) < wpc (tpc t)))).
+Proof.
+  intros Np. unfold exec, touch, dec.
+  destruct (tpc t) eqn:Hpc; try congruence; destruct (data gl); destruct (mem gl);
+    cbn [r_t r_lab r_ret r_g fst snd]; case_ifs; cbn [r_t r_lab r_ret r_g fst snd];
+    (split; [rewrite ?prog_enter; reflexivity|]);
+    try (left; repeat split; auto; fail);
+    right; (split; [first [left; discriminate | right; reflexivity]|]);
+    try match goal with |- context [enter ?x ?o] => destruct (wpc_enter x o) as [E|E]; [left; exact E|right; rewrite E; cbn; lia] end;
+    cbn [tpc set_pc set_sh set_wk wpc]; try (left; reflexivity); right; lia.
+Qed.
+
+Lemma measure_pop t o rest p :
+  prog t = o :: rest -> 1 <= wpc p ->
+  measure (mkT (sh t) (wk t) rest PIdle) < wpc p + 9 * length rest.
+Proof. intros Ep Hp. unfold measure. cbn [prog tpc]. destruct rest; cbn [length wpc]; lia. Qed.
+
+Lemma measure_finish t o rest :
+  prog t = o :: rest -> tpc t = PIdle -> forall p, 1 <= wpc p -> measure (fst (finish t o)) < wpc p + 9 * length rest.
+Proof.
+  intros Ep Hp p Lp. unfold finish. rewrite Hp. cbn [fst]. rewrite Ep. cbn [tl].
+  eapply measure_pop; eauto.
+Qed.
+
+(** every step is either a spin (failed test-and-set: nothing changes) or
+    strictly decreases the thread's measure *)
+Lemma step_thread_measure gl t ts :
+  step_thread gl t = Some ts ->
+  (ts_lab ts = LTas /\ ts_ret ts = 1%N /\ ts_t ts = started t (hd (Get 0) (prog t)) /\
+   ts_g ts = fst (touch gl) /\ tpc (ts_t ts) = PLockSpin /\ lock (fst (touch gl)) = true /\
+   measure (ts_t ts) <= measure t) \/
+  ((ts_lab ts <> LTas \/ ts_ret ts = 0%N) /\ measure (ts_t ts) < measure t).
+Proof.
+  intros Hs. destruct (step_thread_cases _ _ _ Hs) as (o & rest & Ep & [(i & Hpc & -> & El & Et & _)|(NG & Hc)]).
+  - right. split; [left; rewrite El; discriminate|]. rewrite Et. unfold measure at 2. rewrite Ep, Hpc.
+    eapply measure_pop; eauto. cbn; lia.
+  - cbv zeta in Hc. rewrite Ep. cbn [hd].
+    assert (Ep1 : prog (started t o) = o :: rest).
+    { unfold started. destruct (tpc t); auto. rewrite prog_begin; auto. }
+    assert (M1 : wpc (tpc (started t o)) + 9 * length rest <= measure t).
+    { unfold measure. rewrite Ep. unfold started. destruct (tpc t) eqn:Hpc; try (rewrite Hpc; lia).
+      pose proof (wpc_le (tpc (begin t o))). cbn [wpc]. lia. }
+    destruct Hc as [(Hp1 & El & _ & _ & Et)|(Np & El & Eg & _ & Er & Et)].
+    + right. split; [left; rewrite El; discriminate|]. rewrite Et.
+      pose proof (measure_finish _ _ _ Ep1 Hp1 _ (proj1 (wpc_le (tpc (started t o))))). lia.
+    + destruct (exec_measure gl (started t o) o Np) as (Epr & [(L1 & L2 & L3 & L4)|(L1 & L2)]).
+      * left. rewrite exec_lab in L1.
+        assert (Hsp : tpc (started t o) = PLockSpin) by (destruct (tpc (started t o)); cbn in L1; congruence).
+        rewrite Et, L3. unfold finish. rewrite Hsp. cbn [fst]. rewrite El, Er, L2, Eg, L4, Hsp.
+        repeat split; auto.
+        -- unfold exec in L2. rewrite Hsp in L2. destruct (touch gl) as (g1 & ev); cbn [fst].
+           destruct (lock g1); auto. cbn in L2. discriminate.
+        -- unfold measure at 1. rewrite Ep1. lia.
+      * right. split; [rewrite El, Er; rewrite exec_lab in L1; exact L1|]. rewrite Et.
+        destruct L2 as [L2|L2].
+        -- assert (Ep2 : prog (r_t (exec gl (started t o) o)) = o :: rest) by congruence.
+           pose proof (measure_finish _ _ _ Ep2 L2 _ (proj1 (wpc_le (tpc (started t o))))). lia.
+        -- unfold finish. destruct (tpc (r_t (exec gl (started t o) o))) eqn:Hq; cbn [fst];
+             try (unfold measure at 1; rewrite Epr, Ep1, Hq; lia).
+           cbn in L2. pose proof (wpc_le (tpc (started t o))). lia.
+Qed.
+
+Definition nonspin (l : list info) : nat := length (filter (fun i => negb (is_spin i)) l).
+
+Lemma nonspin_snoc l i : nonspin (l ++ [i]) = nonspin l + (if is_spin i then 0 else 1).
+Proof. unfold nonspin. rewrite filter_app, app_length. cbn. destruct (is_spin i); cbn; lia. Qed.
+
+Lemma tot_upd f l i t t' :
+  nth_error l i = Some t -> tot f (upd l i t') + f t = tot f l + f t'.
+Proof.
+  intros H. destruct (nth_split_upd _ _ _ H) as (l1 & l2 & -> & E). rewrite E, !tot_mid. lia.
+Qed.
+
+(** every step: the number of non-spin steps logged plus the global measure
+    does not grow; so the measure bounds the non-spin steps of ANY schedule *)
+Lemma step_nonspin st tid st' :
+  step st tid = Some st' ->
+  nonspin (log st') + tot measure (ths st') <= nonspin (log st) + tot measure (ths st).
+Proof.
+  intros Hs. destruct (step_inv _ _ _ Hs) as (t & ts & Et & Es & _ & Eth & El).
+  rewrite El, Eth, nonspin_snoc. pose proof (tot_upd measure _ _ _ (ts_t ts) Et) as U.
+  unfold is_spin. cbn [i_lab i_ret].
+  destruct (step_thread_measure _ _ _ Es) as [(L1 & L2 & _ & _ & _ & _ & M)|([L1|L1] & M)].
+  - rewrite L1, L2. lia.
+  - destruct (ts_lab ts); try congruence; lia.
+  - rewrite L1. destruct (ts_lab ts); lia.
+Qed.
+
+Theorem nonspin_bounded sched : forall st,
+  nonspin (log (run st sched)) + tot measure (ths (run st sched)) <= nonspin (log st) + tot measure (ths st).
+Proof.
+  induction sched as [|tid r IH]; intros st; cbn [run]; [lia|].
+  destruct (step st tid) as [s1|] eqn:E; [|apply IH].
+  pose proof (step_nonspin _ _ _ E). specialize (IH s1). lia.
+Qed.
+
+Lemma measure_le_prog t : measure t <= 9 * length (prog t).
+Proof. unfold measure. destruct (prog t); cbn [length]; [lia|]. pose proof (wpc_le (tpc t)). lia. Qed.
+
+(** in any schedule at most 9 non-spin steps are taken per library call *)
+Theorem nonspin_le_calls ts sched :
+  nonspin (log (run (init_state ts) sched)) <= 9 * tot (fun t => length (prog t)) ts.
+Proof.
+  pose proof (nonspin_bounded sched (init_state ts)) as H. cbn [log init_state ths nonspin] in H.
+  assert (B : tot measure ts <= 9 * tot (fun t => length (prog t)) ts).
+  { clear H. induction ts as [|t r IH]; [cbn; lia|]. unfold tot, nsum in *. cbn [map fold_right].
+    pose proof (measure_le_prog t). lia. }
+  unfold nonspin at 2 in H. cbn in H. lia.
+Qed.
+
+Lemma tot_pos_exists f l : tot f l > 0 -> exists i t, nth_error l i = Some t /\ f t > 0.
+Proof.
+  induction l as [|x r IH]; intros H; [cbn in H; lia|].
+  destruct (f x) eqn:E.
+  - unfold tot, nsum in *. cbn [map fold_right] in H. rewrite E in H.
+    destruct (IH H) as (i & t & A & B). exists (S i), t. auto.
+  - exists 0, x. split; auto. lia.
+Qed.
+
+(** distance of the flag holder from releasing the flag, in its own steps *)
+Definition wdist (p : pc) : nat :=
+  match p with PLockHard => 3 | PLockSoft | PLockUndo => 2 | PLockClear => 1 | _ => 0 end.
+
+(** the holder of the flag always has an enabled non-spin step; each of its
+    own steps brings it one closer to the release, which happens at the third
+    at the latest *)
+Lemma holder_step gl t :
+  thread_ok t -> win t = 1 ->
+  exists ts, step_thread gl t = Some ts /\ ts_lab ts <> LTas /\
+    ((wdist (tpc t) = 1 /\ lock (ts_g ts) = false /\ win (ts_t ts) = 0) \/
+     (wdist (tpc (ts_t ts)) + 1 = wdist (tpc t) /\ win (ts_t ts) = 1)).
+Proof.
+  intros (_ & Ok) Hw. unfold win in Hw.
+  destruct (prog t) as [|o rest] eqn:Ep.
+  { destruct Ok as (Hp & _). rewrite Hp in Hw. discriminate. }
+  unfold step_thread. rewrite Ep. unfold pc_ok in Ok.
+  destruct (tpc t) eqn:Hpc; try discriminate; destruct o; try contradiction;
+    unfold exec, dec; rewrite Hpc; destruct (touch gl) as (g1 & ev); cbn [target_sh];
+    case_ifs; unfold finish; cbn [r_t r_g r_lab tpc set_pc set_sh];
+    eexists; (split; [reflexivity|]); cbn [ts_lab ts_g ts_t]; (split; [discriminate|]);
+    unfold win; cbn [tpc wdist set_lock lock]; auto.
+Qed.
+
+Theorem lock_holder_progress st :
+  conc_inv st -> lock (g st) = true ->
+  exists tid t ts, nth_error (ths st) tid = Some t /\ win t = 1 /\
+    step_thread (g st) t = Some ts /\ ts_lab ts <> LTas /\
+    ((wdist (tpc t) = 1 /\ lock (ts_g ts) = false) \/
+     (wdist (tpc (ts_t ts)) + 1 = wdist (tpc t) /\ win (ts_t ts) = 1)) /\
+    wdist (tpc t) <= 3.
+Proof.
+  intros Inv Hl. pose proof Inv as (Ft & HG). destruct HG as (_ & _ & W & _). rewrite Hl in W.
+  destruct (tot_pos_exists win (ths st)) as (tid & t & Et & Hw); [lia|].
+  assert (Hw1 : win t = 1) by (unfold win in *; destruct (tpc t); lia).
+  destruct (holder_step (g st) t (conc_inv_thread _ _ _ Inv Et) Hw1) as (ts & Es & Nl & D).
+  exists tid, t, ts. repeat split; auto.
+  - destruct D as [(A & B & _)|D]; auto.
+  - destruct (tpc t); cbn; lia.
+Qed.
+
+(** a spinning thread implies that another thread holds the flag and has an
+    enabled non-spin step *)
+Theorem spinner_not_alone st tid st' i :
+  conc_inv st -> step st tid = Some st' -> log st' = log st ++ [i] -> is_spin i = true ->
+  exists tid' t' ts', tid' <> tid /\ nth_error (ths st) tid' = Some t' /\ win t' = 1 /\
+    step_thread (g st) t' = Some ts' /\ ts_lab ts' <> LTas.
+Proof.
+  intros Inv Hs El Hsp. destruct (step_inv _ _ _ Hs) as (t & ts & Et & Es & _ & _ & El').
+  rewrite El' in El. apply app_inv_head in El. injection El as <-.
+  unfold is_spin in Hsp. cbn [i_lab i_ret] in Hsp.
+  pose proof (conc_inv_thread _ _ _ Inv Et) as Tk.
+  assert (Hd : data (g st) = Live).
+  { destruct (step_thread_access _ _ _ Tk Es) as (_ & _ & _ & A).
+    destruct (ts_lab ts) eqn:L; try discriminate. specialize (A ltac:(cbn; lia)).
+    pose proof (tot_ge softc _ _ _ Et). pose proof (tot_ge fre _ _ _ Et).
+    destruct Inv as (_ & HG). eapply ginv_data_live; eauto. lia. }
+  destruct (step_thread_measure _ _ _ Es) as [(L1 & L2 & L3 & L4 & L5 & L6 & _)|([L1|L1] & _)].
+  2: { destruct (ts_lab ts); congruence. }
+  2: { rewrite L1 in Hsp. destruct (ts_lab ts); discriminate. }
+  rewrite (touch_live _ Hd) in L6. cbn [fst] in L6.
+  destruct (lock_holder_progress st Inv L6) as (tid' & t' & ts' & Et' & Hw' & Es' & Nl & _).
+  exists tid', t', ts'. repeat split; auto. intros ->. rewrite Et in Et'. injection Et' as <-.
+  (* the spinner is not inside the window *)
+  assert (W0 : win t = 0).
+  { unfold win. unfold started in L3. destruct (tpc t) eqn:Hpc; auto; exfalso;
+      rewrite L3 in L5; cbn [hd] in L5; destruct (prog t); cbn in L5; congruence. }
+  lia.
+Qed.
+
+(** no deadlock: while some thread has not finished, some thread has an
+    enabled non-spin step *)
+Theorem some_thread_runs st tid t :
+  conc_inv st -> nth_error (ths st) tid = Some t -> prog t <> [] ->
+  exists tid' t' ts', nth_error (ths st) tid' = Some t' /\ step_thread (g st) t' = Some ts' /\
+    (ts_lab ts' <> LTas \/ ts_ret ts' = 0%N).
+Proof.
+  intros Inv Et Np.
+  assert (X : exists ts, step_thread (g st) t = Some ts).
+  { unfold step_thread. destruct (prog t) as [|o r]; [congruence|].
+    destruct (tpc t); cbv zeta; try (destruct (finish _ _); eauto; fail).
+    destruct o as [a b|a|a b|a b|a|a]; cbv zeta;
+      try (match goal with |- context [begin t ?o] => destruct (tpc (begin t o)) end; destruct (finish _ _); eauto; fail).
+    destruct (s_null (get_sh t a)); [eauto|]. destruct (touch (g st)); eauto. }
+  destruct X as (ts & Es).
+  destruct (step_thread_measure _ _ _ Es) as [(L1 & L2 & _ & _ & _ & L6 & _)|(L1 & _)].
+  - assert (Hd : data (g st) = Live).
+    { destruct (step_thread_access _ _ _ (conc_inv_thread _ _ _ Inv Et) Es) as (_ & _ & _ & A).
+      rewrite L1 in A. specialize (A ltac:(cbn; lia)).
+      pose proof (tot_ge softc _ _ _ Et). pose proof (tot_ge fre _ _ _ Et).
+      destruct Inv as (_ & HG). eapply ginv_data_live; eauto. lia. }
+    rewrite (touch_live _ Hd) in L6. cbn [fst] in L6.
+    destruct (lock_holder_progress st Inv L6) as (tid' & t' & ts' & Et' & _ & Es' & Nl & _).
+    exists tid', t', ts'. auto.
+  - exists tid, t, ts. auto.
+Qed.
